@@ -22,6 +22,11 @@ CLAIMS = {
    "Proof of the structural statement, modulo flock semantics: one lock function with LOCK_EX|LOCK_NB on <configured dir>/lock/base(<device argument>); in both front-ends every call path from an entry point to any effect (file create/write/rename/remove, ssh spawn, device send, HTTP request, process start) passes the success edge of the lock call; the lock handle is kept alive by a deferred Close only; a failed flock is returned as error. All obligations discharged on every run.",
    "Trusted: flock(2) semantics (exclusive, released by the kernel at process exit/kill), call-graph soundness, effect classification at the module/library boundary (table in c12.go). Not decided: interleavings themselves, NFS, removal of a held lock file by cron.",
    "DESIGN.md section 4 C12"),
+ "C16": ("proof",
+   "effect-kind classification of every map range on go/ssa with inter-procedural write/emit summaries; table-driven kind-restricted exemptions; AST scans for goroutines/select/random/clock/%p",
+   "Proof that no output-relevant computation depends on hash-map iteration order or other nondeterminism sources: every `range` over a map (enumerated exhaustively, SSA and AST counts must agree) has only order-insensitive effect kinds or an audited exemption permitting exactly the named kinds; map iterators feed only sorting collectors; no goroutine, select, random source, %p; the clock is confined to mytime.Now and its log/history/status callers; the table invariant behind one exemption (ANCHOR uniform per prefix) is checked on the cmdInfo literals. All obligations discharged on every run (five genuine nondeterminisms found by this rule were repaired by fix: commits).",
+   "Trusted: sort/slices/maps.Keys+Sorted deterministic; distinct entries of one map do not alias; library functions not listed as writers do not write through arguments. Error-message text and info lines are outside the property's statement (scripts, warnings, exit status).",
+   "DESIGN.md section 4 C16, E3"),
 }
 
 NOT_APPLICABLE = {
